@@ -73,6 +73,33 @@ def include_digest():
     return _include_digest
 
 
+_gen = [None]
+
+
+def gen_dir():
+    """Scratch directory for generated witness programs, private to this process (two checks running at the same
+    time - on the same or on different trees - must never see each other's half-written files); removed at exit,
+    leftovers of killed runs are pruned after a day."""
+    if _gen[0] is None:
+        import atexit
+        import shutil
+        import tempfile
+        base = os.path.join(CACHE, "gen")
+        os.makedirs(base, exist_ok=True)
+        now = time.time()
+        for x in os.listdir(base):
+            px = os.path.join(base, x)
+            try:
+                if now - os.path.getmtime(px) > 86400:
+                    shutil.rmtree(px, ignore_errors=True) if os.path.isdir(px) else os.remove(px)
+            except OSError:
+                pass
+        d = tempfile.mkdtemp(prefix="p%d_" % os.getpid(), dir=base)
+        atexit.register(shutil.rmtree, d, True)
+        _gen[0] = d
+    return _gen[0]
+
+
 def ensure_plugin():
     """Build the plugin if it is missing or older than its source."""
     if os.path.exists(PLUGIN) and os.path.getmtime(PLUGIN) >= os.path.getmtime(PLUGIN_SRC):
@@ -313,9 +340,14 @@ class TU:
                 recs = None
         if recs is None:
             recs = []
-            with open(path) as fh:
-                for line in fh:
-                    recs.append(json.loads(line))
+            try:
+                with open(path) as fh:
+                    for line in fh:
+                        recs.append(json.loads(line))
+            except FileNotFoundError:
+                # another check process has just converted the facts file into its pickle
+                with open(pk, "rb") as fh:
+                    recs = pickle.load(fh)
             try:
                 tmp = pk + ".tmp%d" % os.getpid()
                 with open(tmp, "wb") as fh:
